@@ -8,6 +8,7 @@ import (
 	"encoding/json"
 	"errors"
 	"fmt"
+	files "github.com/ipfs/go-ipfs-files"
 	"io"
 	"io/ioutil"
 	"mime/multipart"
@@ -68,6 +69,7 @@ type env struct {
 	open, auth       *rest.API
 	openURL, authURL string
 	scriptErr        error
+	failRPC          map[string]error // per endpoint
 	answers          map[string]interface{}
 	hc               *http.Client
 	clOpen           client.Client
@@ -98,6 +100,13 @@ func setup(c *fw.Ctx) {
 	e.rec = sim.NewRPCRecorder(func(ctx context.Context, call sim.Call, out interface{}) error {
 		if e.scriptErr != nil {
 			return e.scriptErr
+		}
+		if err := e.failRPC[call.Name()]; err != nil {
+			return err
+		}
+		if call.Name() == "Cluster.BlockAllocate" {
+			*(out.(*[]peer.ID)) = []peer.ID{gen.Peer(0)}
+			return nil
 		}
 		if ans, ok := e.answers[call.Name()]; ok {
 			b, _ := json.Marshal(ans)
@@ -1048,4 +1057,76 @@ func clientLib(c *fw.Ctx, e *env, r *fw.Rand) {
 	}, func() (interface{}, error) { return cl.Metrics(ctx, mname) }, []*api.Metric{{Name: mname, Peer: gen.Peer(1), Value: "5", Valid: true, Expire: 123}})
 	one("MetricNames", "PeerMonitor.MetricNames", nil, func() (interface{}, error) { return cl.MetricNames(ctx) }, []string{"a", "b"})
 	one("Allocations", "Cluster.Pins", nil, func() (interface{}, error) { return cl.Allocations(ctx, api.AllType) }, []*api.Pin{ansPin})
+
+	// a failure answered by the server comes back as an error of the call
+	e.scriptErr = errors.New("scripted failure " + r.Str(5))
+	for name, f := range map[string]func() error{
+		"ID":      func() error { _, err := cl.ID(ctx); return err },
+		"Pin":     func() error { _, err := cl.Pin(ctx, target, po); return err },
+		"Unpin":   func() error { _, err := cl.Unpin(ctx, target); return err },
+		"Status":  func() error { _, err := cl.Status(ctx, target, local); return err },
+		"Peers":   func() error { _, err := cl.Peers(ctx); return err },
+		"PeerRm":  func() error { return cl.PeerRm(ctx, pid) },
+		"Recover": func() error { _, err := cl.Recover(ctx, target, local); return err },
+	} {
+		err := f()
+		c.Eval("client/error-answer/" + name)
+		if name == "Peers" {
+			continue // the peer list carries per-peer errors; only the others must fail as a whole
+		}
+		if err == nil {
+			c.Violation("C11/client/server-error-returned-as-success/"+name, "the server answered an error ("+e.scriptErr.Error()+") and the client call returned nil", nil)
+		} else if !strings.Contains(err.Error(), e.scriptErr.Error()) {
+			c.Violation("C11/client/server-error-text-lost/"+name, fmt.Sprintf("server said %q, client returned %q", e.scriptErr, err), nil)
+		}
+	}
+	e.scriptErr = nil
+
+	// adding through the client: what the server streamed comes back; a failure
+	// after the stream has started (it travels in a trailer) comes back as an error
+	for _, fail := range []bool{false, true} {
+		e.rec.Reset()
+		e.failRPC = nil
+		if fail {
+			e.failRPC = map[string]error{"IPFSConnector.BlockPut": errors.New("scripted block put failure")}
+		}
+		data := r.Bytes(r.Range(1, 5000))
+		dir := files.NewMapDirectory(map[string]files.Node{"f.bin": files.NewBytesFile(data)})
+		mfr := files.NewMultiFileReader(dir, true)
+		params := api.DefaultAddParams()
+		params.Name = "client-add"
+		if r.Bool() {
+			params.StreamChannels = false
+		}
+		out := make(chan *api.AddedOutput, 64)
+		err := cl.AddMultiFile(ctx, mfr, params, out)
+		var outs []*api.AddedOutput
+		for o := range out {
+			outs = append(outs, o)
+		}
+		e.failRPC = nil
+		c.Eval(fmt.Sprintf("client/add/fail=%v/stream=%v", fail, params.StreamChannels))
+		var pins int
+		for _, cl := range e.rec.Calls() {
+			if cl.Name() == "Cluster.Pin" {
+				pins++
+			}
+		}
+		if fail {
+			if err == nil {
+				c.Violation("C11/client/add-failure-returned-as-success", fmt.Sprintf("the add failed on the server (block put refused) and the client's AddMultiFile returned nil (stream-channels=%v, %d outputs)", params.StreamChannels, len(outs)), nil)
+			}
+			if pins != 0 {
+				c.Violation("C11/client/failed-add-pinned", "the add failed and the root was pinned", nil)
+			}
+			continue
+		}
+		if err != nil {
+			c.Violation("C11/client/error/AddMultiFile", "a valid add through the client failed: "+err.Error(), nil)
+			continue
+		}
+		if len(outs) == 0 || pins != 1 {
+			c.Violation("C11/client/add-result", fmt.Sprintf("valid add: %d outputs returned, %d pins performed", len(outs), pins), nil)
+		}
+	}
 }
